@@ -133,7 +133,11 @@ CheckClaim(e, post) ==
       paid == Monus(bal, e.post.dispute.bal)
   IN
   IF ~e.ok THEN
-     (IF "err" \in DOMAIN e /\ \E i \in 1 .. (Len(e.err) - 11) : SubSeq(e.err, i, i + 11) = "insufficient" THEN {"EntitledRewardNeverFailsForLackOfFunds"} ELSE {})
+     \* (Dev_F13 again: the account is shared, the units that stake-paid fees never delivered can be missing when a reward
+     \*  is claimed.  Identity: the bank reports what the payment needs; the accumulated shortfall covers the difference.)
+     (IF "err" \in DOMAIN e /\ \E i \in 1 .. (Len(e.err) - 11) : SubSeq(e.err, i, i + 11) = "insufficient"
+      THEN {IF "F-13" \in KNOWN /\ ~IsZero(short) /\ "need" \in DOMAIN e /\ e.need \preceq (bal ++ short) THEN "KNOWN:F-13" ELSE "EntitledRewardNeverFailsForLackOfFunds"}
+      ELSE {})
      \cup (IF e.post.dispute.bal = bal THEN {} ELSE {"RejectedClaimChangesNothing"})
   ELSE
      (IF Has(disp, e.id) /\ Executed(d) THEN {} ELSE {"RewardOnlyAfterExecution"})
